@@ -142,7 +142,11 @@ class CellObject(Points, ABC):
 
         new_index = np.ones_like(vert_index, dtype=int)
         new_index[vert_index] = np.arange(self.vertices.shape[0])
-        self.remove_cells(np.where(~np.all(vert_index[self.cells], axis=1)))
+        # cells that lost a vertex go with it (there may be none)
+        lost_cells = np.where(~np.all(vert_index[self.cells], axis=1))[0]
+        if len(lost_cells) > 0:
+            self.remove_cells(lost_cells)
+
         self.cells = new_index[self.cells]
 
     def copy(  # pylint: disable=too-many-branches
